@@ -3,7 +3,9 @@ package main
 import (
 	"go/constant"
 	"go/token"
+	"go/types"
 	"regexp"
+	"strconv"
 	"strings"
 
 	"golang.org/x/tools/go/ssa"
@@ -113,4 +115,237 @@ func ruleIDExemptionBySignature(r *Run) {
 		}
 	}
 	r.AtLeast(rule, "id exemptions in the merge of shared types", n, 1)
+}
+
+// ruleNoClientWriteDeadline (R8f.deadline): the gateway waits for a slow subscriber; it does
+// not put a time limit on writes to the client connection. A deadline on a net.Conn belongs to
+// the connection, not to the goroutine that set it: one set for a keep-alive also cuts an event
+// write that another goroutine has in progress, leaving half a frame on the wire and ending the
+// subscription without the event. The rule is over the handler package (where the client
+// connection lives): no call of SetWriteDeadline / SetDeadline with anything but the zero time.
+func ruleNoClientWriteDeadline(r *Run) {
+	const rule = "R8f.deadline"
+	scanned := 0
+	for _, fn := range r.P.Funcs {
+		if top := topFn(fn); top.Pkg == nil || top.Pkg.Pkg.Path() != modPath {
+			continue
+		}
+		scanned++
+		n := 0
+		for _, ins := range allInstrs(fn) {
+			ci, ok := ins.(ssa.CallInstruction)
+			if !ok {
+				continue
+			}
+			c := ci.Common()
+			var mname string
+			if c.IsInvoke() {
+				mname = c.Method.Name()
+			} else if sc := c.StaticCallee(); sc != nil && sc.Signature.Recv() != nil {
+				mname = sc.Name()
+			}
+			if mname != "SetWriteDeadline" && mname != "SetDeadline" {
+				continue
+			}
+			if len(c.Args) == 0 {
+				continue
+			}
+			t := unwrap(c.Args[len(c.Args)-1])
+			if namedOf(t.Type()) != "time.Time" {
+				continue
+			}
+			n++
+			key := "write deadline"
+			if n > 1 {
+				key += "#" + strconv.Itoa(n)
+			}
+			if k, isC := t.(*ssa.Const); isC && k.Value == nil {
+				r.OK(rule, fnName(fn), key, r.P.pos(ins.Pos()), "the zero time: lifts a deadline, sets none")
+				continue
+			}
+			r.Bad(rule, fnName(fn), key, r.P.pos(ins.Pos()),
+				"a write deadline is put on a connection in the handler package: it applies to every write on that connection, those of other goroutines already in progress included; an event being written to a slow subscriber is cut short (half a frame on the wire) and the subscription ends without it")
+		}
+	}
+	r.OKTrivial(rule, "", "functions scanned", "-", strconv.Itoa(scanned)+" functions of the handler package scanned for SetWriteDeadline/SetDeadline")
+}
+
+// ruleCloseReason (R8g.reason): the reason text of a close frame is cropped by the library
+// (ws.NewCloseFrameBody) to the 123 bytes a control frame has room for, at a byte boundary. A
+// reason that may be longer than that and may hold multi-byte characters — the text of an
+// error, anything echoed from the client's message — is cut in the middle of a character, and
+// the frame the client receives is not a well-formed close frame (RFC 6455 5.5.1: the reason
+// is UTF-8). The reason must be text whose origin the rule can bound: ASCII text (constants,
+// numbers, their concatenations: any crop of it is valid), a short constant, or the result of
+// a module function that works on it with unicode/utf8.
+func ruleCloseReason(r *Run) {
+	const rule = "R8g.reason"
+	n := 0
+	for _, fn := range r.P.Funcs {
+		for _, ins := range allInstrs(fn) {
+			ci, ok := ins.(ssa.CallInstruction)
+			if !ok {
+				continue
+			}
+			sc := ci.Common().StaticCallee()
+			if sc == nil || sc.Pkg == nil || sc.Pkg.Pkg.Path() != "github.com/gobwas/ws" || !strings.Contains(sc.Name(), "CloseFrameBody") {
+				continue
+			}
+			for _, a := range ci.Common().Args {
+				bt, isB := a.Type().Underlying().(*types.Basic)
+				if !isB || bt.Info()&types.IsString == 0 {
+					continue
+				}
+				n++
+				key := "close reason"
+				if n > 1 {
+					key += "#" + strconv.Itoa(n)
+				}
+				why, safe := safeReason(r, a, map[ssa.Value]bool{}, 0)
+				r.Check(safe, rule, fnName(fn), key, r.P.pos(ins.Pos()),
+					"the reason is "+why,
+					"the reason of the close frame is "+why+": the library crops a reason to 123 bytes at a byte boundary, so a long text with a multi-byte character at the cut reaches the client as a close frame whose body is not valid UTF-8 — a malformed frame")
+			}
+		}
+	}
+	r.AtLeast(rule, "close frame bodies built", n, 1)
+}
+
+func safeReason(r *Run, v ssa.Value, seen map[ssa.Value]bool, depth int) (string, bool) {
+	v = unwrap(v)
+	if seen[v] {
+		return "text whose every crop is valid", true
+	}
+	seen[v] = true
+	if depth > 8 {
+		return "text the rule cannot trace to its origin", false
+	}
+	switch x := v.(type) {
+	case *ssa.Const:
+		if x.Value == nil || x.Value.Kind() != constant.String {
+			return "a constant", true
+		}
+		s := constant.StringVal(x.Value)
+		ascii := true
+		for i := 0; i < len(s); i++ {
+			if s[i] >= 0x80 {
+				ascii = false
+			}
+		}
+		if ascii || len(s) <= 123 {
+			return "a constant that is ASCII or fits the frame", true
+		}
+		return "a constant longer than the frame has room for, with multi-byte characters", false
+	case *ssa.Phi:
+		for _, e := range x.Edges {
+			if why, ok := safeReason(r, e, seen, depth+1); !ok {
+				return why, false
+			}
+		}
+		return "one of several safe texts", true
+	case *ssa.BinOp:
+		if x.Op == token.ADD {
+			for _, e := range []ssa.Value{x.X, x.Y} {
+				if why, ok := safeReason(r, e, seen, depth+1); !ok {
+					return why, false
+				}
+			}
+			// a concatenation of ASCII texts is ASCII; short non-ASCII constants may add up
+			for _, e := range []ssa.Value{x.X, x.Y} {
+				if k, ok := unwrap(e).(*ssa.Const); ok && k.Value != nil && k.Value.Kind() == constant.String {
+					for _, c := range []byte(constant.StringVal(k.Value)) {
+						if c >= 0x80 {
+							return "a concatenation with multi-byte text, of a length the rule cannot bound", false
+						}
+					}
+				}
+			}
+			return "a concatenation of ASCII texts", true
+		}
+	case *ssa.Call:
+		name := calleeName(&x.Call)
+		switch {
+		case strings.HasPrefix(name, "strconv.Itoa"), strings.HasPrefix(name, "strconv.FormatInt"), strings.HasPrefix(name, "strconv.FormatUint"), strings.HasPrefix(name, "strconv.Quote"+"ToASCII"):
+			return "a number", true
+		}
+		if sc := x.Call.StaticCallee(); sc != nil && inModule(sc) && sc.Blocks != nil {
+			for _, i := range allInstrs(sc) {
+				if ci, ok := i.(ssa.CallInstruction); ok && strings.HasPrefix(calleeName(ci.Common()), "unicode/utf8.") {
+					return "cut by " + fnName(sc) + ", which works on it with unicode/utf8 (assumed to cut at a character boundary within the frame's room)", true
+				}
+			}
+			all := true
+			var why string
+			for _, ret := range returnsOf(sc) {
+				for _, rv := range retVals(ret) {
+					bt, isB := rv.Type().Underlying().(*types.Basic)
+					if !isB || bt.Info()&types.IsString == 0 {
+						continue
+					}
+					if w, ok := safeReason(r, rv, seen, depth+1); !ok {
+						all, why = false, w
+					}
+				}
+			}
+			if all {
+				return "the result of " + fnName(sc) + ", every return of which is safe text", true
+			}
+			return why, false
+		}
+		if x.Call.IsInvoke() && x.Call.Method.Name() == "Error" {
+			return "the text of an error (it may quote anything, the client's own message included)", false
+		}
+		return "the result of " + name + ", of a length and content the rule cannot bound", false
+	case *ssa.UnOp:
+		if x.Op == token.MUL {
+			if fa, ok := x.X.(*ssa.FieldAddr); ok {
+				f := fieldOf(fa)
+				// every value the module stores in this field
+				stores := 0
+				for _, g := range r.P.Funcs {
+					for _, i := range allInstrs(g) {
+						st, ok := i.(*ssa.Store)
+						if !ok {
+							continue
+						}
+						fa2, ok := st.Addr.(*ssa.FieldAddr)
+						if !ok || fieldOf(fa2) != f {
+							continue
+						}
+						stores++
+						if why, ok := safeReason(r, st.Val, seen, depth+1); !ok {
+							return why, false
+						}
+					}
+				}
+				if stores > 0 {
+					return "a field that is only given safe texts", true
+				}
+				return "a field filled in outside the rule's sight (a decoded message, a literal)", false
+			}
+		}
+	case *ssa.Parameter:
+		fn := x.Parent()
+		idx := -1
+		for i, p := range fn.Params {
+			if p == x {
+				idx = i
+			}
+		}
+		callers := 0
+		for _, e := range r.P.CG.In[fn] {
+			if e.Kind != "static" || e.Site == nil || idx >= len(e.Site.Common().Args) {
+				return "a parameter with callers the rule cannot enumerate", false
+			}
+			callers++
+			if why, ok := safeReason(r, e.Site.Common().Args[idx], seen, depth+1); !ok {
+				return why, false
+			}
+		}
+		if callers > 0 {
+			return "a parameter that every caller gives safe text", true
+		}
+		return "a parameter of a function without callers in sight", false
+	}
+	return "text of an origin the rule cannot bound (" + v.String() + ")", false
 }
